@@ -1,4 +1,6 @@
 // Trusted model of std::io::{Read, Write} (DESIGN 3.3). ASSUMED, not verified.
+// ASSUMED: 64-bit target (usize is 8 bytes).
+global size_of usize == 8;
 //
 // Write: the sink has a ghost log `written()`. write_all either appends the whole buffer (Ok) or some
 // prefix of it (Err) -- that is the std contract of write_all, and it makes the log independent of how
@@ -8,6 +10,7 @@
 // independent of how the source fragments reads. read(buf) delivers 0..=|buf| of the next bytes;
 // Ok(0) only at end of data (or for an empty buffer).
 /// w1 is w0 extended by some prefix of `full`
+#[verifier::opaque]
 pub open spec fn wrote_prefix(w0: Seq<u8>, w1: Seq<u8>, full: Seq<u8>) -> bool {
     exists|k: int| #![trigger full.subrange(0, k)] 0 <= k <= full.len() && w1 == w0 + full.subrange(0, k)
 }
@@ -21,6 +24,7 @@ pub proof fn lemma_prefix_embed(w0: Seq<u8>, done: Seq<u8>, mid: Seq<u8>, tail: 
     requires wrote_prefix(w0 + done, w1, mid),
     ensures wrote_prefix(w0, w1, done + mid + tail),
 {
+    reveal(wrote_prefix);
     let k = choose|k: int| #![trigger mid.subrange(0, k)] 0 <= k <= mid.len() && w1 == (w0 + done) + mid.subrange(0, k);
     let full = done + mid + tail;
     assert(full.subrange(0, done.len() + k) =~= done + mid.subrange(0, k));
@@ -30,9 +34,34 @@ pub proof fn lemma_prefix_embed(w0: Seq<u8>, done: Seq<u8>, mid: Seq<u8>, tail: 
 pub proof fn lemma_prefix_full(w0: Seq<u8>, full: Seq<u8>)
     ensures wrote_prefix(w0, w0 + full, full), wrote_prefix(w0, w0, full),
 {
+    reveal(wrote_prefix);
     assert(full.subrange(0, full.len() as int) =~= full);
     assert(w0 + full.subrange(0, 0) =~= w0);
 }
+
+/// the sink currently holds w0 + full[..d] and the next piece to be written is full[d..d+|piece|]
+#[verifier::opaque]
+pub open spec fn piece_at(w0: Seq<u8>, full: Seq<u8>, wb: Seq<u8>, piece: Seq<u8>) -> bool {
+    let d = wb.len() - w0.len();
+    0 <= d && d + piece.len() <= full.len() && wb == w0 + full.subrange(0, d) && full.subrange(d, d + piece.len()) == piece
+}
+
+/// (verified) C13 glue: a partial write of the piece at its place is a partial write of the whole
+pub broadcast proof fn lemma_prefix_piece(w0: Seq<u8>, full: Seq<u8>, wb: Seq<u8>, piece: Seq<u8>, w1: Seq<u8>)
+    requires #[trigger] piece_at(w0, full, wb, piece), #[trigger] wrote_prefix(wb, w1, piece),
+    ensures wrote_prefix(w0, w1, full),
+{
+    reveal(wrote_prefix); reveal(piece_at);
+    let d = wb.len() - w0.len();
+    let k = choose|k: int| #![trigger piece.subrange(0, k)] 0 <= k <= piece.len() && w1 == wb + piece.subrange(0, k);
+    assert(full.subrange(0, d + k) =~= full.subrange(0, d) + piece.subrange(0, k));
+    assert(w0 + full.subrange(0, d + k) =~= wb + piece.subrange(0, k));
+}
+
+pub proof fn lemma_prefix_at(w0: Seq<u8>, full: Seq<u8>, d: int)
+    requires 0 <= d <= full.len(),
+    ensures wrote_prefix(w0, w0 + full.subrange(0, d), full),
+{ reveal(wrote_prefix); }
 
 pub proof fn lemma_skip_skip(s: Seq<u8>, a: int, b: int)
     requires 0 <= a, 0 <= b, a + b <= s.len(),
